@@ -142,6 +142,7 @@ class Mod:
             self.name = self.name[: -len(".__init__")]
         self.tree = ast.parse(open(path, encoding="utf-8").read())
         self.classes, self.funcs, self.consts = {}, {}, {}
+        self.dict_consts = {}
         self.escape_names, self.saxutils_names, self.quoteattr_names = set(), set(), set()
         self.nsdecls_names = set()
         for node in self.tree.body:
@@ -152,6 +153,13 @@ class Mod:
             elif isinstance(node, ast.Assign) and len(node.targets) == 1 and isinstance(node.targets[0], ast.Name):
                 if isinstance(node.value, ast.Constant) and isinstance(node.value.value, str):
                     self.consts[node.targets[0].id] = node.value.value
+                if isinstance(node.value, ast.Dict):
+                    # a module-level literal table (e.g. an entities dictionary given a name); a name bound twice is dropped
+                    nm = node.targets[0].id
+                    self.dict_consts[nm] = None if nm in self.dict_consts else node.value
+            elif isinstance(node, ast.AnnAssign) and isinstance(node.target, ast.Name) and isinstance(node.value, ast.Dict):
+                nm = node.target.id
+                self.dict_consts[nm] = None if nm in self.dict_consts else node.value
         for node in ast.walk(self.tree):
             if isinstance(node, ast.ImportFrom):
                 for a in node.names:
@@ -184,6 +192,7 @@ class Ctx:
     def __init__(self, mod, cls, fn, parent=None):
         self.mod, self.cls, self.fn, self.parent = mod, cls, fn, parent
         self.params = {p.arg: p for p in fn_params(fn)}
+        self.bind = {}     # parameter -> value of the caller's argument (a wrapper function evaluated at its call site)
         self.assigns, self.aug, self.loops = {}, set(), {}
         self._collect(fn.body)
 
@@ -381,6 +390,8 @@ class Scanner:
                 if all(is_xml(v) or lit_text(v) == "" and all_lit(v) for v in evs):
                     return [H(Hole(nm, "frag", "accumulated in " + c.qual(), frag=c.mod.rel + ":" + c.qual(), line=e.lineno))]
                 return [H(Hole(nm, "opaque", "local with several assignments", line=e.lineno))]
+            if nm in c.bind:
+                return [(k, (v.copy() if k == "hole" else v)) for k, v in c.bind[nm]]
             if nm in c.params:
                 p = c.params[nm]
                 ann = ast.unparse(p.annotation) if p.annotation is not None else ""
@@ -391,6 +402,49 @@ class Scanner:
         if nm in cx.mod.consts:
             return [L(cx.mod.consts[nm])]
         return [H(Hole(nm, "opaque", "free name", line=e.lineno))]
+
+    def _shadowed(self, nm, cx):
+        c = cx
+        while c is not None:
+            if nm in c.params or nm in c.assigns or nm in c.loops:
+                return True
+            c = c.parent
+        return False
+
+    def inline_wrapper(self, fn, sub, e, cx, depth, skip_first=False):
+        """A function whose body is (docstring +) one return statement is evaluated at its call site: its parameters
+        stand for the caller's arguments, so a helper that only wraps escape() keeps the escaping visible.
+        None when the callee is not of that shape or the arguments cannot be matched to parameters."""
+        body = [st for st in fn.body if not (isinstance(st, ast.Expr) and isinstance(st.value, ast.Constant)
+                                            and isinstance(st.value.value, str))]
+        if len(body) != 1 or not isinstance(body[0], ast.Return) or body[0].value is None or depth > 12:
+            return None
+        a = fn.args
+        if a.vararg or a.kwarg or a.kwonlyargs or a.posonlyargs:
+            return None
+        params = [p.arg for p in a.args]
+        if skip_first and params:
+            params = params[1:]
+        if any(isinstance(x, ast.Starred) for x in e.args) or any(k.arg is None for k in e.keywords):
+            return None
+        if len(e.args) > len(params):
+            return None
+        bind = {}
+        for pn, av in zip(params, e.args):
+            bind[pn] = self.ev(av, cx, depth + 1)
+        for k in e.keywords:
+            if k.arg not in params or k.arg in bind:
+                return None
+            bind[k.arg] = self.ev(k.value, cx, depth + 1)
+        ndef = len(a.defaults)
+        for i, pn in enumerate(params):
+            if pn not in bind:
+                j = i - (len(params) - ndef)
+                if j < 0:
+                    return None
+                bind[pn] = self.ev(a.defaults[j], sub, depth + 1)
+        sub.bind = bind
+        return self.ev(body[0].value, sub, depth + 1)
 
     def resolve_owner(self, base, cx):
         """Class (in this module) that an expression denotes an instance of / is, or None."""
@@ -419,6 +473,11 @@ class Scanner:
             return None
         rets = returns_of(fn)
         sub = Ctx(cx.mod, ocls, fn)
+        if call_args is not None and isinstance(e, ast.Call):
+            is_static = any(isinstance(d, ast.Name) and d.id == "staticmethod" for d in fn.decorator_list)
+            r2 = self.inline_wrapper(fn, Ctx(cx.mod, ocls, fn), e, cx, depth, skip_first=not is_static)
+            if r2 is not None:
+                return r2
         nparams = len([p for p in fn_params(fn) if p.arg not in ("self", "cls")])
         qual = cx.mod.rel + ":" + sub.qual()
         if not rets:
@@ -457,6 +516,8 @@ class Scanner:
                 raise Unmod("escape() call shape: " + ast.unparse(e))
             ent = e.args[1] if len(e.args) > 1 else (e.keywords[0].value if e.keywords else None)
             kind, d = "sax", {}
+            if isinstance(ent, ast.Name) and mod.dict_consts.get(ent.id) is not None and not self._shadowed(ent.id, cx):
+                ent = mod.dict_consts[ent.id]       # a module-level literal dictionary used by name
             if ent is not None:
                 if not (isinstance(ent, ast.Dict) and all(isinstance(k, ast.Constant) and isinstance(v, ast.Constant)
                                                          for k, v in zip(ent.keys, ent.values))):
@@ -518,6 +579,9 @@ class Scanner:
             while c is not None:
                 for st in ast.walk(c.fn):
                     if isinstance(st, ast.FunctionDef) and st.name == f.id and st is not c.fn:
+                        r2 = self.inline_wrapper(st, Ctx(cx.mod, c.cls, st, parent=c), e, cx, depth)
+                        if r2 is not None:
+                            return r2
                         sub = Ctx(cx.mod, c.cls, st, parent=c)
                         rets = returns_of(st)
                         evs = [self.ev(rt.value, sub, depth + 1) for rt in rets if rt.value is not None]
@@ -530,6 +594,9 @@ class Scanner:
                 c = c.parent
             if f.id in mod.funcs:
                 fn = mod.funcs[f.id]
+                r2 = self.inline_wrapper(fn, Ctx(mod, None, fn), e, cx, depth)
+                if r2 is not None:
+                    return r2
                 sub = Ctx(mod, None, fn)
                 evs = [self.ev(rt.value, sub, depth + 1) for rt in returns_of(fn) if rt.value is not None]
                 qual = mod.rel + ":" + fn.name
